@@ -105,7 +105,6 @@ Section Hash.
             | Panic => (pg, Panic)
             | Ok (po, _) =>
                 if negb (po_auth po) then (pg, Err EOther)       (* repair of D8 *)
-                else if bytes_eqb (po_host po) chost then (pg, Err EOther)   (* repair of D9: reflection *)
                 else if validate_pong po key (h_nonce o) salt then (pg, Ok tt)
                 else (pg, Err EOther)
             end
